@@ -251,7 +251,7 @@ func (g *genCfg) pick(rng *rand.Rand, o, d *Obj) (Call, string) {
 		case "SetLogger":
 			return Call{"op": "SetLogger", "arg": []string{"stdout", "STDOUT", "int1", "stderr", "StdErr", "int2", "custom", "off", "discard", "int0", "nil", "junk", "int7"}[rng.Intn(13)]}, "st"
 		case "SetID":
-			return Call{"op": "SetID", "v": []string{"", "x", "some id", "Y_1", "_random", "_RANDOM", "_addr"}[rng.Intn(7)]}, "st"
+			return Call{"op": "SetID", "v": []string{"", "x", "some id", "Y_1", "_random", "_RANDOM", "_addr", "_Xy"}[rng.Intn(8)]}, "st"
 		case "SetCategory":
 			return Call{"op": "SetCategory", "v": []string{"", "k", "cat two"}[rng.Intn(3)]}, "st"
 		case "SetDelimiter":
